@@ -103,6 +103,11 @@ def conv_case(ctx, rng, lines, pend):
     except Exception as e:  # noqa: BLE001
         ctx.fail(f'helper raised {type(e).__name__}: {e}', case, 'raised')
         return
+    # statement oracle: A is (a multiple of) the second moment of the rows [patch | 1] — aligned with the gradient's columns;
+    # the library's normalisation is rows·(out_h·out_w)²
+    wantA = P1.t() @ P1 / (P1.shape[0] * (oh * ow) ** 2)
+    if tuple(A.shape) != tuple(wantA.shape) or (A - wantA).abs().max().item() > 1e-12 * max(1e-30, wantA.abs().max().item()):
+        ctx.fail('conv A factor is not the second moment of the rows [patch|1] (uniformly scaled by 1/(rows·(out_h·out_w)²))', case, 'conv-a-moment')
     if got.shape != want.shape or not torch.equal(got, want):
         ctx.fail('get_grad() is not the sum over samples and positions of outer(output-gradient row, input-patch row|1)', case, 'grad-layout')
     if tuple(patches.shape) != (N, oh, ow, cin * kh * kw) or not torch.equal(patches.reshape(N * oh * ow, -1), P):
@@ -140,7 +145,8 @@ def lin_case(ctx, rng, lines, pend):
     from kfac.layers.modules import LinearModuleHelper
     fin, fout = rng.randrange(1, 5), rng.randrange(1, 5)
     bias = rng.random() < 0.6
-    lead = [rng.randrange(1, 4) for _ in range(rng.choice([1, 1, 2, 3]))]
+    # (rank 1 = a single unbatched sample, which torch.nn.Linear accepts: one row)
+    lead = [rng.randrange(1, 4) for _ in range(rng.choice([0, 1, 1, 2, 3]))]
     case = dict(kind='linear', fin=fin, fout=fout, bias=bias, lead=lead)
     m = torch.nn.Linear(fin, fout, bias=bias).double()
     with torch.no_grad():
@@ -158,6 +164,10 @@ def lin_case(ctx, rng, lines, pend):
     G = hlp.get_g_factor(gout.clone())
     if not torch.equal(got, want):
         ctx.fail('linear get_grad() is not Σ outer(g_row, input_row|1)', case, 'grad-layout')
+    # statement oracle: A is the second moment of the rows [input | 1] over all leading positions
+    wantA = X1.t() @ X1 / X1.shape[0]
+    if tuple(A.shape) != tuple(wantA.shape) or (A - wantA).abs().max().item() > 1e-12 * max(1.0, wantA.abs().max().item()):
+        ctx.fail(f'linear A factor (shape {tuple(A.shape)}) is not the second moment of the rows [input|1] (shape {tuple(wantA.shape)})', case, 'lin-a-moment')
     if tuple(A.shape) != tuple(hlp.a_factor_shape) or tuple(G.shape) != tuple(hlp.g_factor_shape):
         ctx.fail('linear factor shapes differ from the advertised shapes', case, 'shapes')
     newg = torch.randint(-5, 6, got.shape).double()
